@@ -9,6 +9,7 @@ are compared byte for byte with the model, decoded by the Lean reference decoder
 """
 from common import hx
 import gen
+import rxworld
 
 ASSUMPTIONS = ["frames with a body of at most 65530 bytes (the 16-bit length field)",
                "setter arguments are non-negative integers"]
@@ -123,6 +124,13 @@ def _frames(ctx):
             if base_flags & 0x40:
                 ctx.counterexample("lib-roundtrip", dict(wire=hx(raw), rest=hx(rest)), "accepted", impl_de,
                                    "Frame.deserialize rejects a frame the host built")
+        # ... and through the library's stream decoder (the receiver the peer of this host would be running)
+        outs, final, raised = rxworld.session([raw])
+        want_d = "Dll=%d hl=%s" % (int.from_bytes(raw[:7], "little"), ("raw:" + hx(data)) if hdr is None else "hdr=%d:%s" % (int(hdr), hx(data)))
+        got_d = [x for x in outs[0].split(",") if x.startswith("D")]
+        if got_d != [want_d]:
+            ctx.counterexample("lib-stream-roundtrip", dict(wire=hx(raw)), want_d, outs[0][:200],
+                               "the library's stream decoder does not recover the frame the host built")
         if ans is None:
             continue
         m_frame, m_ref, m_de = ans[3 * k:3 * k + 3]
